@@ -178,8 +178,24 @@ def check_guard(ctx, r):
     ws = new_style_wrappers(m, r)
     ctx.counters["new_style_wrappers"] = len(ws)
     ctx.floor("C19.1", "new_style_wrappers", 1)
+    # the old-style wrapper (`jaxtyped(typechecker=None)`, the form the import hook produces when it is installed with typechecker=None,
+    # and `@jaxtyped @typechecker`): every other closure jaxtyped hands back that opens a binding context.  With checking switched off it
+    # has to be as transparent as the new-style one: an open context ties manual isinstance checks in the body together and the handler
+    # around the body annotates its exceptions (F13)
+    seen = {w.qualname for w, _ in ws}
+    old = []
+    for f in r.wrappers()["wraps"]:
+        if f.qualname in seen:
+            continue
+        for c in m.calls_in(f):
+            t = m.resolve_call(f, c)
+            if t.kind == "func" and t.target.qualname == r.push.qualname:
+                old.append((f, None))
+                break
+    ctx.counters["old_style_wrappers"] = len(old)
+    ctx.floor("C19.1", "old_style_wrappers", 1)
     check_no_decoration_time_switch(ctx, "C19.1")
-    _check_wrapper_guards(ctx, r, ws)
+    _check_wrapper_guards(ctx, r, ws + old)
 
 
 def check_no_decoration_time_switch(ctx, tag="C19.1"):
@@ -566,6 +582,25 @@ def check_wiring(ctx, r):
                 construct="per-thread / per-context switch storage")
     elif not any(fd.rule == "C19.4" for fd in ctx.findings):
         ctx.ok("C19.4", cls.qualname, "the switches are plain attributes of one module-level object: a toggle is visible to every thread")
+    # only the config object's own methods write the switch: code elsewhere that flips it temporarily (save, set, restore in a `finally`)
+    # overwrites a `config.update("jaxtyping_disable", ..)` made meanwhile on another thread with the stale value it saved
+    writers = []
+    for f2 in m.all_functions(include_typeguard=False):
+        if f2.module.short == "_config":
+            continue
+        for x in ast.walk(f2.node):
+            if isinstance(x, ast.Attribute) and x.attr == "jaxtyping_disable" and isinstance(x.ctx, (ast.Store, ast.Del)):
+                writers.append((f2, x))
+            if isinstance(x, ast.Call) and isinstance(x.func, ast.Name) and x.func.id == "setattr" and len(x.args) >= 2 and isinstance(x.args[1], ast.Constant) and x.args[1].value == "jaxtyping_disable":
+                writers.append((f2, x))
+            if isinstance(x, ast.Call) and isinstance(x.func, ast.Attribute) and x.func.attr == "update" and x.args and isinstance(x.args[0], ast.Constant) and x.args[0].value == "jaxtyping_disable" \
+                    and isinstance(x.func.value, ast.Name) and m.resolve_name(f2, x.func.value.id).kind == "modvar":
+                writers.append((f2, x))
+    for f2, x in writers:
+        ctx.bad("C19.3", f2, x, f"`{short(x, 50)}` in {f2.qualname} writes the disable switch from inside the package: a value set by the user with config.update meanwhile (another thread) "
+                "is overwritten when this code restores what it saved, so the switch the user set does not take effect", construct=f"switch written outside the config object in {f2.name}")
+    if not writers:
+        ctx.ok("C19.3", cls.qualname, "nothing outside the config module writes jaxtyping_disable")
     init = need(cls.methods.get("__init__"), "_JaxtypingConfig.__init__ not found")
     upd = need(cls.methods.get("update"), "_JaxtypingConfig.update not found")
     ctx.saw(init)
